@@ -29,7 +29,16 @@ claim('C15',
       'Trusted: in-memory open/os/sys stubs (vf/clienv.py; write-open truncates, read-only raises before truncating), CrossHair/z3. '
       'do_minify is the environment here (decided under C13/C14). A crash inside f.write is outside the fault model.',
       'CrossHair symbolic execution of main/source_modules, z3 decides each path', 'DESIGN.md 4/C15')
-for _p in ['C02', 'C03', 'C04', 'C05', 'C06', 'C07', 'C08', 'C09', 'C10', 'C11', 'C12']:
+claim('C12',
+      'Every eval() site of python_minifier is rebound to a reference recogniser/decoder of closed literal text and the real '
+      'quoting code (MiniString, f_string.Str/Bytes, OuterFString.str_for) and FoldConstants are executed symbolically: for every '
+      'string in bound (all of Unicode; surrogates/NUL/quotes/backslashes via a stated alphabet) no text containing a token '
+      'other than a literal reaches eval. A site inventory of /repo/src is recomputed each run. Right level: the inputs that '
+      'could break out of the quoting are rare and adversarial; the solver searches for them instead of sampling.',
+      'Trusted: R-lit (vf/rlit.py, validated every run against the CPython parser on thousands of texts), CrossHair/z3, CPython\'s '
+      'ast.parse/compile (C code; parses but does not execute). Bound: |s| <= 2/3. MiniBytes is dead code (checked: no references).',
+      'CrossHair symbolic execution of the quoting code with eval replaced by a closed-literal recogniser; AST site inventory', 'DESIGN.md 4/C12')
+for _p in ['C02', 'C03', 'C04', 'C05', 'C06', 'C07', 'C08', 'C09', 'C10', 'C11']:
     na(_p, 'check not built yet in this revision (planned: see DESIGN.md section 4); will be claimed when its harness lands')
 na('C01', 'needs the run-time semantics of arbitrary modules (observational equivalence of two program runs); nothing a solver can '
           'encode - the mechanisms behind it are decided under C02-C09 (DESIGN.md 4/C01)')
